@@ -169,7 +169,7 @@ func cmdCheck(args []string) {
 		for _, fn := range eng.allFunctions(p) {
 			sn := eng.shortName(fn)
 			ct := eng.contractFor(fn)
-			if ct != nil && ct.Flags["trusted"] && !matchFunc(cfg.Sweep, sn) {
+			if ct != nil && ct.Flags["trusted"] && !matchFunc(cfg.Sweep, sn) && len(ct.Structure) == 0 {
 				continue // a trusted contract is an assumption, not a claim (the panic sweep still looks at the body)
 			}
 			if (matchFunc(cfg.Functions, sn) && ct != nil) || matchFunc(cfg.Sweep, sn) {
